@@ -406,6 +406,128 @@ def request_orders(ctx, r, n_orders):
             ctx.count("request orders run")
 
 
+def reused_request_maps(ctx):
+    """A caller that keeps ONE dict and edits it between requests (m2/s, m3/s, m2/s, ... in a loop): every request is
+    answered with the quantity of what the dict holds *now* - whether the previous request was a first one or a repeat."""
+    from barril.units import ObtainQuantity, Quantity
+
+    db = table.build("posc")
+    with table.pushed(db):
+        for form in ("ObtainQuantity(dict)", "CreateDerived", "ObtainQuantity(list,categories)", "MakeCopy(dict)"):
+            for caption in (None, "a caption"):
+                work = OrderedDict([("length", ["m", 2]), ("time", ["s", -1])])
+                seen = []
+                for step, (e1, u2) in enumerate([(2, "s"), (2, "s"), (3, "s"), (3, "s"), (2, "s"), (3, "min"), (3, "min"), (2, "min"), (2, "s"), (4, "s"), (2, "s")]):
+                    work["length"][1] = e1
+                    work["time"][0] = u2
+                    ctx.ev()
+                    try:
+                        if form == "ObtainQuantity(dict)":
+                            q = ObtainQuantity(work, None, caption)
+                        elif form == "CreateDerived":
+                            q = Quantity.CreateDerived(work, caption)
+                        elif form == "MakeCopy(dict)":
+                            q = ObtainQuantity("m", "length").MakeCopy(work)
+                        else:
+                            q = ObtainQuantity([v for v in work.values()], list(work), caption)
+                        got = [(c, v[0], v[1]) for c, v in q.GetCategoryToUnitAndExps().items()]
+                    except Exception as e:
+                        ctx.violation("reused-map:request-raised:%s:%s" % (form, type(e).__name__), {"step": step, "error": str(e)[:160]})
+                        break
+                    want = [("length", "m", e1), ("time", u2, -1)]
+                    seen.append(want)
+                    if got != want:
+                        ctx.violation("reused-map:answered-with-the-quantity-of-an-earlier-request:%s" % form, {"caption": caption, "asked": want, "got": got, "requests_so_far": seen[-4:]}, replay={"reused_maps": True})
+                        break
+                ctx.count("requests through one reused, edited map")
+
+
+def pickles_from_elsewhere(ctx):
+    """A pickled quantity (or value object) is read where nothing is interned for it: after the database's interned
+    quantities were dropped, for a quantity that was constructed directly and never interned, and in another process.
+    The round trip gives an equal quantity (same items, same hash here)."""
+    import os
+    import subprocess
+    import sys
+
+    from barril.units import Array, FixedArray, GetUnknownQuantity, ObtainQuantity, Quantity, Scalar, UnitDatabase
+
+    from .. import env
+
+    def samples():
+        m_s = OrderedDict([("length", ["m", 1]), ("time", ["s", -1])])
+        return [
+            ("simple", ObtainQuantity("m", "length")), ("other category", ObtainQuantity("cm", "depth")), ("captioned", ObtainQuantity("m", "length", "a caption")), ("unknown", GetUnknownQuantity("furlong")),
+            ("empty", Quantity.CreateEmpty()), ("derived m/s", ObtainQuantity(OrderedDict((k, list(v)) for k, v in m_s.items()))), ("derived m/m", (Scalar(1.0, "m") / Scalar(2.0, "m")).GetQuantity()),
+            ("derived, never interned", Quantity(OrderedDict([("length", ["km", 2]), ("time", ["h", -2])]), None)), ("derived with caption", ObtainQuantity(OrderedDict((k, list(v)) for k, v in m_s.items()), None, "cap")),
+            ("product", (Scalar(2.0, "kg") * Scalar(3.0, "m") / Scalar(1.0, "s")).GetQuantity()), ("Scalar m/s2", Scalar(2.0, "m") / Scalar(1.0, "s") / Scalar(1.0, "s")), ("FixedArray m2", FixedArray(2, "length", [1.0, 2.0], "m") * FixedArray(2, "length", [1.0, 2.0], "m")),
+            ("Scalar degC", Scalar(0.0, "degC")), ("legacy spelling", ObtainQuantity("1000ft3/d", "volume flow rate")),
+        ]  # fmt: skip
+
+    def fp(o):
+        q = o.GetQuantity() if hasattr(o, "GetQuantity") else o
+        return repr(snapshot.quantity_fingerprint(q)[5]) + "|" + repr(q.GetUnknownCaption()) + ("|" + repr(o.GetAbstractValue()) if hasattr(o, "GetAbstractValue") else "")
+
+    db = table.build("posc")
+    blobs = []
+    with table.pushed(db):
+        objs = samples()
+        for name, o in objs:
+            try:
+                blobs.append((name, pickle.dumps(o, 2), fp(o)))
+            except Exception as e:
+                ctx.count("objects that cannot be pickled")
+                blobs.append((name, None, repr(e)))
+        # (a) nothing interned any more on this database
+        db.quantities_cache.clear()
+        for (name, blob, want), (_n, o) in zip(blobs, objs):
+            if blob is None:
+                continue
+            ctx.ev()
+            ctx.nt(("pickle elsewhere", "interned quantities dropped", name))
+            try:
+                back = pickle.loads(blob)
+                qb, qo = (back.GetQuantity(), o.GetQuantity()) if hasattr(o, "GetQuantity") else (back, o)
+                if fp(back) != want or not (qb == qo) or hash(qb) != hash(qo):
+                    ctx.violation("pickle-not-equal:read after the interned quantities were dropped", {"object": name, "wrote": want, "read": fp(back)}, replay={"pickles_elsewhere": True})
+            except Exception as e:
+                ctx.violation("pickle-raised:read after the interned quantities were dropped:%s" % type(e).__name__, {"object": name, "error": str(e)[:200]}, replay={"pickles_elsewhere": True})
+    # (b) another process reads what this one wrote
+    import base64
+    import json
+
+    payload = json.dumps([[n, base64.b64encode(b).decode()] for n, b, _w in blobs if b is not None])
+    child = (
+        "import sys, json, base64, pickle; sys.path.insert(0, %r); sys.path.insert(0, %r)\n"
+        "from vp import env; env.setup()\n"
+        "from vp.models import snapshot\n"
+        "out = {}\n"
+        "for n, b in json.loads(sys.stdin.read()):\n"
+        "    try:\n"
+        "        o = pickle.loads(base64.b64decode(b)); q = o.GetQuantity() if hasattr(o, 'GetQuantity') else o\n"
+        "        out[n] = repr(snapshot.quantity_fingerprint(q)[5]) + '|' + repr(q.GetUnknownCaption()) + ('|' + repr(o.GetAbstractValue()) if hasattr(o, 'GetAbstractValue') else '')\n"
+        "    except Exception as e:\n"
+        "        out[n] = 'RAISED ' + type(e).__name__ + ': ' + str(e)[:160]\n"
+        "print(json.dumps(out))\n"
+    ) % (env.VERIF_DIR, env.REPO_SRC)
+    try:
+        p = subprocess.run([env.PYTHON, "-c", child.replace("\\n", "\n")], input=payload, capture_output=True, text=True, timeout=300, env=dict(os.environ, VERIF_REPO=env.REPO))
+        read = json.loads(p.stdout.strip().splitlines()[-1])
+    except Exception as e:
+        ctx.inconclusive.append("the reading process did not answer: %s" % repr(e)[:160])
+        return
+    for name, blob, want in blobs:
+        if blob is None:
+            continue
+        ctx.ev()
+        ctx.nt(("pickle elsewhere", "another process", name))
+        got = read.get(name)
+        if got != want:
+            ctx.violation("pickle-not-equal:read in another process", {"object": name, "wrote": want, "read": got}, replay={"pickles_elsewhere": True})
+        else:
+            ctx.count("pickles read back equal in another process")
+
+
 def run(ctx):
     from barril.units import Quantity, UnitDatabase
 
@@ -433,6 +555,9 @@ def run(ctx):
             ctx.sample({"history_steps_18_26": [[str(x) for x in op] for op in hist[18:26]]})
     long_haul(ctx, ctx.rng("longhaul"))
     request_orders(ctx, ctx.rng("orders"), 6 if ctx.tier == "quick" else 120)
+    if ctx.shard == 0:
+        reused_request_maps(ctx)
+        pickles_from_elsewhere(ctx)
     ctx.count("fingerprint comparisons", mon.n_checks)
     ctx.notes["monitor"] = {"fingerprint_and_pair_checks": mon.n_checks}
     # thorough tier: the repository's own tests as a workload under the global monitors (vp/suite_workload.py)
@@ -446,6 +571,10 @@ def run(ctx):
 def replay(ctx, d):
     mon = QuantityMonitor()
     mon.install()
+    if d.get("reused_maps"):
+        return reused_request_maps(ctx)
+    if d.get("pickles_elsewhere"):
+        return pickles_from_elsewhere(ctx)
 
     def fix(op):
         op = list(op)
